@@ -146,6 +146,7 @@ type fakeConn struct {
 	inEOF  bool     // the end closed this connection (after `in` is drained: EOF; writes fail)
 	failed bool     // the connection broke: reads and writes fail, `in` is gone
 	closed bool     // Close() was called on the server side (the bridge's doing): the end observes closure
+	rWait  int      // Read calls currently parked on this connection
 	closeT time.Time
 }
 
@@ -199,7 +200,9 @@ func (c *fakeConn) Read(p []byte) (int, error) {
 				return 0, io.EOF
 			}
 		}
+		c.rWait++
 		w.cond.Wait()
+		c.rWait--
 	}
 }
 
@@ -427,6 +430,12 @@ func (r *run) attach() {
 	r.w.attachAt = time.Now()
 	r.w.mu.Unlock()
 	r.bridge.SetTargetConnection(tc) // what handleTargetBridge / handleExistingBridge do
+	if r.b.Mode == "gated" && r.desync == "" {
+		// gated scripts continue once both copiers sit in their first Read (the model's Attach step
+		// includes the start of the two goroutines)
+		src := r.w.ends["S"].cur()
+		r.poll(2*time.Second, func() bool { return (src.rWait > 0 && c.rWait > 0) || r.bridgeGone() })
+	}
 }
 
 func (r *run) attached() bool { return r.isAttached }
@@ -638,9 +647,12 @@ func execute(env *fw.Env, b *beh) *fw.Trace {
 			w.cond.Broadcast()
 			w.mu.Unlock()
 		case "replace":
+			w.mu.Lock()
+			clean := r.attached() || len(w.ends["S"].cur().in) == 0
+			w.mu.Unlock()
 			c, sst := r.newConn("S")
 			tc := session.CreateTunnelConnection("conn-S2", c, sst, srcClient, mappingID, tunnelID)
-			w.logL(fw.Event{"ev": "Env", "a": "replace"})
+			w.logL(fw.Event{"ev": "Env", "a": "replace", "clean": clean})
 			br.SetSourceConnection(tc) // what handleExistingBridge does for the listen client
 		case "closeold":
 			w.mu.Lock()
